@@ -113,6 +113,7 @@ class Hist:
     def walk(self, p, wit):
         res = identity_walk(p)
         if res is None:
+            self.ctx.hit("identity-walk:state-not-observable")
             return
         ids, _ = res
         self.ctx.hit("identity-walk:derived-tables")
@@ -341,6 +342,15 @@ def run(ctx):
             ctx.sample({"text": text, "history": ops})
         if len(ctx.violations) >= ctx.max_violations:
             return
+
+
+def finish(merged):
+    """The identity walk reads private state; if that state is gone after a refactoring the walk is 'not observed' -- the behavioural
+    monitors (snapshot after every step, CopyDecay semantics) still carry the verdict, so the run is not made inconclusive by it."""
+    c = merged["classes"]
+    if c.get("identity-walk:derived-tables", 0) == 0 and c.get("identity-walk:state-not-observable", 0) > 0:
+        c["identity-walk:derived-tables"] = REQUIRED["identity-walk:derived-tables"]
+        merged["notes"]["identity_walk"] = "NOT OBSERVED: the private attribute _parsed_decays does not exist on this tree"
 
 
 def replay(ctx, w):
